@@ -103,6 +103,10 @@ func main() {
 			// recorded in the evidence, but it is not a verdict on the analysed tree.
 			fmt.Fprintf(os.Stderr, "SELF-TEST: %d mutant(s) not detected: see evidence\n", res.SelfTest.Missed)
 		}
+		if res.SelfTest != nil && res.SelfTest.Skipped > 0 {
+			// a stored change that no longer applies or type-checks tests nothing: it has to be re-made
+			fmt.Fprintf(os.Stderr, "SELF-TEST: %d stored change(s) skipped (they no longer apply or type-check on this tree): see evidence\n", res.SelfTest.Skipped)
+		}
 		if res.SelfTest != nil && len(res.SelfTest.BenignAlarms) > 0 {
 			fmt.Fprintf(os.Stderr, "SELF-TEST: %d behaviour-preserving edit(s) raised an alarm: see evidence\n", len(res.SelfTest.BenignAlarms))
 		}
